@@ -21,8 +21,14 @@ def check(ctx):
     other = spanrules.rule_signals_forced(ctx, facts, "R3")
     spsc.rule_force_send_keeps(ctx, facts, "R3")
     spsc.rule_order(ctx, facts, "R3")
+    spsc.rule_replay_keeps(ctx, facts, "R3")
     spsc.rule_sender_drop(ctx, facts, "R3")
     scopes.rule_start_droppable(ctx, facts, "R4", other or {})
+    from .. import collector
+    c = collector.Collector(ctx, facts)
+    if c.need("R6"):
+        # a root created while the queue was full loses only its StartCollect: its later span sets must still be delivered
+        collector.rule_stale_kept(ctx, c, "R6")
     caps = scopes.rule_capacities(ctx, facts, "R5")
     ctx.analysed.setdefault("E", {})["capacities"] = caps
 
